@@ -22,9 +22,10 @@ LAY = {
     "s0": ("chr1", 0, 10, 0), "s1": ("chr1", 10, 15, 0), "s2": ("chr1", 25, 5, 0),
     "a0": ("hap-A.1", 100, 4, 1), "a1": ("hap-A.1", 110, 10, 1),
     "b0": ("hap_B#2", 7, 2, 2),
+    "c9": ("HG002:hap1:ctg7", 0, 6, 3),  # a contig name with colons (a Z value may hold them); only unstable records walk over it
 }
 LINKS = [("s0", "+", "s1", "+"), ("s1", "+", "s2", "+"), ("s0", "+", "a0", "+"), ("a0", "+", "s1", "+"), ("s1", "+", "a1", "+"),
-         ("a1", "+", "s2", "+"), ("s1", "+", "b0", "-"), ("b0", "-", "s2", "+"), ("s1", "+", "s0", "+")]
+         ("a1", "+", "s2", "+"), ("s1", "+", "b0", "-"), ("b0", "-", "s2", "+"), ("s1", "+", "s0", "+"), ("s1", "+", "c9", "+"), ("c9", "+", "s2", "+")]
 CIG = "5=1X4="
 TAGS = [("tp:A:", "P"), ("cg:Z:", CIG), ("NM:i:", "1")]
 
